@@ -71,6 +71,8 @@ type rpcState struct {
 	cfg          *ConfigPlan
 	respEndLen   int      // payload length of the backend's end-of-stream / trailer frame (0: none)
 	respLen      int      // length of the body the backend rendered (for fault enumeration)
+	respBounds   []int    // end offset of every frame the backend rendered (data frames, then the end frame if it is in the body)
+	respPrefixes []int    // start offset of those frames
 	respComp     string   // compression the backend used
 	respPayloads [][]byte // wire payloads of the backend's data frames
 }
